@@ -451,7 +451,7 @@ def known_cases(chk):
                 and not k.get("cli_only"):
             files = k.get("files") or {"m.emb": k["input"]}
             c = {"kind": "known/" + k["key"], "main": k.get("main", "m.emb"), "files": files, "nesting": 0}
-            c["timeout"] = k.get("timeout") or 15
+            c["timeout"] = k.get("timeout") or 40
             out.append((k, c))
     return out
 
@@ -994,7 +994,7 @@ def exploration(chk, tier, with_model):
                 ex.record(case, {"kind": case["kind"], "outcome": res["outcome"], "bad": [(key, desc)],
                                  "kinds": [], "fmt": None})
     first = load_corpus() + testdata_cases() + gen.boundary_cases()
-    n = 1500 if tier == "quick" else 8000
+    n = 1500 if tier == "quick" else 6000
     cases = first + [gen.pick(r) for _ in range(n)]
     t0 = time.time()
     ex.run(cases, procs=4)
